@@ -10,7 +10,7 @@ CONSTANTS
   DuplModes = {}
   PosBoxB = 12
   CertBoxY = 3
-  SearchCap = 20000
+  SearchCap = 600
   CheckBox = 0
 INVARIANT Verdict
 INVARIANT TypeOK
